@@ -331,12 +331,19 @@ def run_suite(pid, sname, spec, tier, seed, rundir):
     if spec.get("race"):
         henv = dict(GOENV, GORACE="halt_on_error=1 exitcode=66", VERIF_SYNC="1")
         ulim = ""     # the race detector reserves a huge virtual address range
+    elif spec.get("sync"):
+        henv = dict(GOENV, VERIF_SYNC="1")   # every case is on disk before it runs: a dying process names its case
     rc, out = sh(["bash", "-c", ulim + "exec \"$@\"", "x"] + cmd, env=henv, timeout=spec.get("timeout", 7200))
     raced = None
     if spec.get("race") and rc == 66:
         raced = out[out.find("WARNING: DATA RACE"):][:3000] if "WARNING: DATA RACE" in out else out[-3000:]
         rc = 0
-    if rc != 0:
+    died = None
+    if rc != 0 and spec.get("sync") and rc != -9:
+        # the process died on the case it had announced last (Go fatal error: out of memory, stack overflow, ...)
+        head = out[:600].replace("\n", " / ")
+        died = "the process running the code under test died (exit %d) on this input: %s" % (rc, head)
+    elif rc != 0:
         mismatches.append(dict(kind="broken", component="harness-run:" + sname, payload="",
                                detail="harness exited %d: %s" % (rc, out[-500:]), suite=sname))
     # model side (rename the suite column if the model suite differs)
@@ -388,7 +395,7 @@ def run_suite(pid, sname, spec, tier, seed, rundir):
                 n += 1
                 iv = ires.get(cid)
                 mv = mres.get(cid)
-                if iv is None and raced is not None:
+                if iv is None and (raced is not None or died is not None):
                     last_missing = (cid, payload, mv)      # the harness died on the case it had announced last
                     continue
                 if iv is None or mv is None:
@@ -408,6 +415,12 @@ def run_suite(pid, sname, spec, tier, seed, rundir):
                     nontrivial.add(hashlib.md5(payload.encode()).digest()[:8])
                 if len(samples) < 3 or (n % 9973 == 0 and len(samples) < 8):
                     samples.append(dict(suite=sname, input=payload[:300], impl=iv[:300], model=mv[:300]))
+    if died is not None:
+        if last_missing is not None:
+            cid, payload, mv = last_missing
+            mismatches.append(dict(kind="violation", detail=died, suite=sname, payload=payload, case_id=cid, impl="(process died)", model=(mv or "")[:4000]))
+        else:
+            mismatches.append(dict(kind="broken", component="harness-run:" + sname, payload="", detail=died, suite=sname))
     if raced is not None and last_missing is not None:
         cid, payload, mv = last_missing
         iv = "RACE " + raced.replace("\n", " / ")
